@@ -36,6 +36,8 @@ FINDER_BOUNDS = {
     'find_store_consistency': '12 annotations over all nine selector kinds, 3 index configurations, every single and double annotation removal, 7 other removals, 3 protect_text histories',
     'find_segmentation': 'every set of <= 3 of 8 selections over a 10-character text, milestone intervals 0/2/3',
     'find_utf8': '8 texts of 1-4 byte codepoints, 5 milestone intervals, every position and every sub-selection',
+    'find_relative_offsets': 'every selection x every container over 9 positions x 4 offset modes; every cursor pair against every container',
+    'find_subselectors': 'every sequence of 2-3 of 10 simple targets (7 text selections of two resources, 3 annotations) x Multi/Composite/Directional',
     'find_index_walk': 'every range over a 9-character text, forward and backward, 11 known selections',
 }
 
